@@ -123,6 +123,6 @@ Holds(c) == CASE c = "C08_StrongExact" -> C08_StrongExact [] c = "C08_WeakStrict
 TStep == /\ TNext
          /\ LET nb == {c \in ClausesFor(row.k) : ~Holds(c)} IN
               /\ bad' = bad \cup {<<l, c>> : c \in nb}
-              /\ (nb = {} \/ Cardinality(bad) > 40 \/ PrintT(<<"VERIF_BAD", l, nb>>))
+              /\ (nb = {} \/ Cardinality(bad) > 2000 \/ PrintT(<<"VERIF_BAD", l, nb>>))
 TSpec == TInit /\ [][TStep]_<<l, bad>>
 =============================================================================
